@@ -16,20 +16,20 @@ def toks (l : String) : List String := (l.splitOn " ").filter (· != "")
 
 /-- (line number, OP tokens, OBS tokens) for every operation of a case, in order. -/
 def opObsPairs (lines : List String) : List (Nat × List String × List String) :=
-  let (acc, _, _) := lines.foldl (fun (st : List (Nat × List String × List String) × Option (Nat × List String) × Nat) l =>
+  let (acc, cur, _) := lines.foldl (fun (st : List (Nat × List String × List String) × Option (Nat × List String) × Nat) l =>
     let (acc, cur, ln) := st
-    let t := toks l
-    match t with
-    | "OP" :: rest =>
-      -- a pending ctl op without OBS (e.g. `q`) is emitted with an empty observation
-      let acc := match cur with | some (n, op) => acc ++ [(n, op, [])] | none => acc
+    if l.startsWith "OP " then
+      let rest := (toks l).drop 1
+      -- a pending op without OBS (e.g. `q`) is emitted with an empty observation
+      let acc := match cur with | some (n, op) => (n, op, []) :: acc | none => acc
       (acc, some (ln, rest), ln + 1)
-    | "OBS" :: rest =>
+    else if l.startsWith "OBS " || l == "OBS" then
       match cur with
-      | some (n, op) => (acc ++ [(n, op, rest)], none, ln + 1)
+      | some (n, op) => ((n, op, (toks l).drop 1) :: acc, none, ln + 1)
       | none => (acc, none, ln + 1)
-    | _ => (acc, cur, ln + 1)) ([], none, 1)
-  acc
+    else (acc, cur, ln + 1)) ([], none, 1)
+  let acc := match cur with | some (n, op) => (n, op, []) :: acc | none => acc
+  acc.reverse
 
 def hasCoin (lines : List String) : Bool :=
   lines.any (fun l => l == "ORA fail 1" || l.startsWith "ORA repair")
@@ -153,9 +153,263 @@ def oracleC03 (lines : List String) : OResult :=
   if res.ok then res
   else if hasCoin lines then { res with pattern := "F-C03-1" } else res
 
+/-! ### C08 -/
+
+def pairKey (a b : Nat) : Nat × Nat := (min a b, max a b)
+
+structure C08St where
+  held : List (Nat × Nat) := []
+  known : List (Nat × Nat) := []                 -- held pairs whose in-flight queue is known exactly
+  expect : List ((Nat × Nat) × List (Nat × Nat × Nat)) := []   -- pair ↦ ordered (src,dst,id) expected in flight
+  lastLinks : List (Nat × Nat × Nat) := []
+  linksFresh : Bool := false
+  heldMsgs : List Nat := []                      -- ids that must not be received (yet)
+  batches : List (List (Nat × Nat × Nat)) := []  -- released together: must arrive in this order per direction
+  sentAll : List (Nat × Nat × Nat) := []         -- (id, src, dst) of every accepted send
+  recvLog : List (Nat × Nat) := []               -- (receiver, id) in receive order
+  leaving : List Nat := []                       -- manually delivered: leave the queue at the next step
+  res : OResult := {}
+
+def C08St.fail (st : C08St) (ln : Nat) (msg : String) : C08St :=
+  if st.res.ok then { st with res := { ok := false, line := ln, detail := msg } } else st
+
+def c08Expect (st : C08St) (k : Nat × Nat) : List (Nat × Nat × Nat) :=
+  match st.expect.find? (·.1 == k) with | some p => p.2 | none => []
+
+def c08SetExpect (st : C08St) (k : Nat × Nat) (v : List (Nat × Nat × Nat)) : C08St :=
+  { st with expect := (st.expect.filter (·.1 != k)) ++ [(k, v)] }
+
+def c08Step (st : C08St) (x : Nat × List String × List String) : C08St :=
+  let (ln, op, obs) := x
+  let onPair := fun (k : Nat × Nat) (e : Nat × Nat × Nat) => pairKey e.1 e.2.1 == k
+  let doHold := fun (st : C08St) (a b : String) (fresh : Bool) =>
+    let k := pairKey (hostTok a) (hostTok b)
+    if st.held.contains k then st else
+    let st := { st with held := st.held ++ [k] }
+    if fresh && st.linksFresh then
+      let inflight := st.lastLinks.filter (onPair k)
+      let st := c08SetExpect st k inflight
+      { st with known := st.known ++ [k], heldMsgs := st.heldMsgs ++ inflight.map (·.2.2) }
+    else st
+  let doRelease := fun (st : C08St) (a b : String) =>
+    let k := pairKey (hostTok a) (hostTok b)
+    if !st.held.contains k then st else
+    let batch := c08Expect st k
+    let st := { st with held := st.held.filter (· != k), known := st.known.filter (· != k),
+                        heldMsgs := st.heldMsgs.filter (fun id => !(batch.any (·.2.2 == id))) }
+    let st := c08SetExpect st k []
+    -- ids sent after a host-code hold are in heldMsgs but not in a known queue: free them too
+    let st := { st with heldMsgs := st.heldMsgs.filter (fun id =>
+      match st.sentAll.find? (·.1 == id) with
+      | some (_, s, d) => pairKey s d != k
+      | none => true) }
+    if batch.isEmpty then st else { st with batches := st.batches ++ [batch] }
+  match op with
+  | ["ctl", "links"] =>
+    let view := parseLinksView obs
+    let st := { st with lastLinks := view, linksFresh := true }
+    -- the iterator must show exactly the in-flight queue of every held link we know exactly
+    st.known.foldl (fun st k =>
+      let want := (c08Expect st k).map (·.2.2)
+      let got := (view.filter (onPair k)).map (·.2.2)
+      if want == got then st else st.fail ln s!"links view of held link {k.1}-{k.2} shows {got}, expected {want}") st
+  | ["ctl", "hold", a, b] => doHold st a b true
+  | [_, "net_hold", a, b] => doHold st a b false
+  | ["ctl", "release", a, b] => doRelease st a b
+  | [_, "net_release", a, b] => doRelease st a b
+  | ["ctl", "deliver", a, b, i] =>
+    let k := pairKey (hostTok a) (hostTok b)
+    if !st.linksFresh then st else
+    match (st.lastLinks.filter (onPair k))[i.toNat?.getD 0]? with
+    | some (_, _, id) =>
+      -- scheduled for the next step; until then it is still shown as in flight
+      { st with heldMsgs := st.heldMsgs.filter (· != id), leaving := st.leaving ++ [id] }
+    | none => st
+  | ["ctl", "step"] =>
+    { st with leaving := [],
+              expect := st.expect.map (fun p => (p.1, p.2.filter (fun e => !st.leaving.contains e.2.2))) }
+  | [h, "udp_send", _, dst, hex] =>
+    let st := { st with linksFresh := false }
+    if obs.head? != some "ok" then st else
+    match addrHost dst, msgId hex with
+    | some d, some id =>
+      let s := hostTok h
+      if s == d then st else
+      let st := { st with sentAll := st.sentAll ++ [(id, s, d)] }
+      let k := pairKey s d
+      if st.held.contains k then
+        let st := { st with heldMsgs := st.heldMsgs ++ [id] }
+        if st.known.contains k then c08SetExpect st k (c08Expect st k ++ [(s, d, id)]) else st
+      else st
+    | _, _ => st
+  | [h, "udp_tryrecv", _, _] =>
+    match obs with
+    | ["ok", _, _, hex] =>
+      match msgId hex with
+      | some id =>
+        let st := if st.recvLog.any (·.2 == id) then st.fail ln s!"datagram {id} delivered twice" else st
+        let st := if st.heldMsgs.contains id then st.fail ln s!"datagram {id} delivered while its link is held" else st
+        { st with recvLog := st.recvLog ++ [(hostTok h, id)] }
+      | none => st
+    | _ => st
+  | _ => st
+
+def isSubseq : List Nat → List Nat → Bool
+  | [], _ => true
+  | _ :: _, [] => false
+  | x :: xs, y :: ys => if x == y then isSubseq xs ys else isSubseq (x :: xs) ys
+
+def oracleC08 (lines : List String) : OResult :=
+  let drained := lines.any (· == "OP ctl mark drained")
+  let st := (opObsPairs lines).foldl c08Step {}
+  let res := st.res
+  -- released together ⇒ arrive in send order per direction
+  let res := if !res.ok then res else
+    match st.batches.find? (fun batch =>
+      let dirs := (batch.map (fun e => (e.1, e.2.1))).eraseDups
+      dirs.any (fun (s, d) =>
+        let want := (batch.filter (fun e => e.1 == s && e.2.1 == d)).map (·.2.2)
+        let got := (st.recvLog.filter (fun r => r.1 == d)).map (·.2)
+        let got := got.filter (fun id => want.contains id)
+        drained && got.length == want.length && !(got == want))) with
+    | some batch => { res with ok := false, detail := s!"messages released together did not all arrive in send order: {batch.map (·.2.2)}" }
+    | none => res
+  -- nothing is lost (no partitions, fail_rate 0 in these families)
+  let res := if res.ok && drained && st.held.isEmpty then
+      match st.sentAll.find? (fun m => !st.recvLog.any (·.2 == m.1)) with
+      | some (id, s, d) => { res with ok := false, detail := s!"datagram {id} h{s}->h{d} was never delivered" }
+      | none => res
+    else res
+  { res with cov := (if st.batches.isEmpty then [] else ["o:batch"]) ++ (if st.known.isEmpty && st.batches.isEmpty then [] else ["o:held"]) }
+
+/-! ### C14 -/
+
+structure C14Msg where
+  id : Nat
+  s : Nat
+  d : Nat
+  sendMs : Nat
+  minL : Nat
+  maxL : Nat
+  delay : Option Nat := none     -- ns, from the decision log
+
+structure C14St where
+  step : Nat := 0
+  tick : Nat := 1
+  gmin : Nat := 0
+  gmax : Nat := 100
+  over : List ((Nat × Nat) × (Nat × Nat)) := []
+  offs : List (Nat × Nat) := []          -- host ↦ ms slept inside the current step
+  msgs : List C14Msg := []
+  recvLog : List (Nat × Nat × Nat) := [] -- (receiver, id, recv ms)
+  res : OResult := {}
+
+def c14Lat (st : C14St) (a b : Nat) : Nat × Nat :=
+  match st.over.find? (·.1 == pairKey a b) with
+  | some p => p.2
+  | none => (st.gmin, st.gmax)
+
+def c14Step (st : C14St) (x : Nat × List String × List String) : C14St :=
+  let (ln, op, obs) := x
+  let fail := fun (st : C14St) (msg : String) =>
+    if st.res.ok then { st with res := { ok := false, line := ln, detail := msg } } else st
+  match op with
+  | ["ctl", "step"] => { st with step := st.step + 1, offs := [] }
+  | ["ctl", "setlat", a, b, v] =>
+    let k := pairKey (hostTok a) (hostTok b)
+    let v := v.toNat?.getD 0
+    { st with over := (st.over.filter (·.1 != k)) ++ [(k, (v, v))] }
+  | ["ctl", "setmaxlat", a, b, v] =>
+    let k := pairKey (hostTok a) (hostTok b)
+    let cur := c14Lat st k.1 k.2
+    { st with over := (st.over.filter (·.1 != k)) ++ [(k, (cur.1, v.toNat?.getD 0))] }
+  | ["ctl", "setgmaxlat", v] => { st with gmax := v.toNat?.getD 0 }
+  | [h, "sleep", v] =>
+    let hh := hostTok h
+    let cur := match st.offs.find? (·.1 == hh) with | some p => p.2 | none => 0
+    { st with offs := (st.offs.filter (·.1 != hh)) ++ [(hh, cur + v.toNat?.getD 0)] }
+  | [h, "udp_send", _, dst, hex] =>
+    if obs.head? != some "ok" then st else
+    match addrHost dst, msgId hex with
+    | some d, some id =>
+      let s := hostTok h
+      if s == d then st else
+      let off := match st.offs.find? (·.1 == s) with | some p => p.2 | none => 0
+      let (mn, mx) := c14Lat st s d
+      { st with msgs := st.msgs ++ [{ id := id, s := s, d := d, sendMs := st.step * st.tick + off, minL := mn, maxL := mx }] }
+    | _, _ => st
+  | [h, "udp_tryrecv", _, _] =>
+    match obs with
+    | ["ok", _, _, hex] =>
+      match msgId hex with
+      | some id =>
+        let r := hostTok h
+        let recvMs := st.step * st.tick
+        let st := if st.recvLog.any (·.2.1 == id) then fail st s!"datagram {id} delivered twice" else st
+        let st := { st with recvLog := st.recvLog ++ [(r, id, recvMs)] }
+        match st.msgs.find? (·.id == id) with
+        | some m =>
+          if m.sendMs + m.minL > recvMs + st.tick then
+            fail st s!"datagram {id}: latency {recvMs}-{m.sendMs} ms below min {m.minL} ms - tick {st.tick} ms"
+          else if recvMs > m.sendMs + m.maxL + st.tick then
+            fail st s!"datagram {id}: latency {recvMs}-{m.sendMs} ms above max {m.maxL} ms + tick {st.tick} ms"
+          else st
+        | none => st
+      | none => st
+    | _ => st
+  | _ => st
+
+/-- attach the logged delay (hook H1) to each send: the `ORA delay` that follows the send's OP line. -/
+def sendDelays (lines : List String) : List (Nat × Nat) :=
+  let (acc, _) := lines.foldl (fun (st : List (Nat × Nat) × Option Nat) l =>
+    let (acc, cur) := st
+    match toks l with
+    | ["OP", _, "udp_send", _, _, hex] => (acc, msgId hex)
+    | ["ORA", "delay", v] => (match cur with | some id => (acc ++ [(id, v.toNat?.getD 0)], none) | none => (acc, none))
+    | "OBS" :: _ => (acc, none)
+    | _ => (acc, cur)) ([], none)
+  acc
+
+def oracleC14 (lines : List String) : OResult :=
+  let cfgT := match lines.find? (·.startsWith "CFG ") with | some l => toks l | none => []
+  let st0 : C14St := { tick := kvNat cfgT "tick_ms" 1, gmin := kvNat cfgT "minlat_ms" 0, gmax := kvNat cfgT "maxlat_ms" 100 }
+  let st := (opObsPairs lines).foldl c14Step st0
+  let drained := lines.any (· == "OP ctl mark drained")
+  let delays := sendDelays lines
+  let res := st.res
+  -- sampled delays stay inside the range in force
+  let res := if !res.ok then res else
+    match st.msgs.find? (fun m => match delays.find? (·.1 == m.id) with
+        | some (_, ns) => ns < m.minL * 1000000 || ns > m.maxL * 1000000
+        | none => false) with
+    | some m => { res with ok := false, detail := s!"datagram {m.id}: sampled delay outside [{m.minL},{m.maxL}] ms" }
+    | none => res
+  -- equal latency ⇒ FIFO per direction
+  let res := if !res.ok then res else
+    let bad := st.msgs.find? (fun m2 =>
+      st.msgs.any (fun m1 =>
+        m1.id < m2.id && m1.s == m2.s && m1.d == m2.d &&
+        (match delays.find? (·.1 == m1.id), delays.find? (·.1 == m2.id) with
+         | some (_, d1), some (_, d2) => d1 == d2
+         | _, _ => false) &&
+        (match st.recvLog.findIdx? (·.2.1 == m1.id), st.recvLog.findIdx? (·.2.1 == m2.id) with
+         | some i1, some i2 => i2 < i1
+         | _, _ => false)))
+    match bad with
+    | some m2 => { res with ok := false, detail := s!"datagram {m2.id} overtook an earlier datagram with the same latency" }
+    | none => res
+  let res := if res.ok && drained then
+      match st.msgs.find? (fun m => !st.recvLog.any (·.2.1 == m.id)) with
+      | some m => { res with ok := false, detail := s!"datagram {m.id} h{m.s}->h{m.d} on a healthy link was never delivered" }
+      | none => res
+    else res
+  { res with cov := (if st.over.isEmpty then [] else ["o:override"]) ++ (if st.msgs.length > 10 then ["o:traffic"] else []) }
+
 def oracle (prop : String) (lines : List String) : OResult :=
   match prop with
   | "C03" => oracleC03 lines
+  | "C08" => oracleC08 lines
+  | "C14" => oracleC14 lines
   | _ => {}
 
 end TV.Driver
